@@ -341,6 +341,7 @@ func main() {
 	b.WriteString("]\n\n")
 	b.WriteString(handshakeFacts(hl))
 	b.WriteString(encodeStringShape(hl))
+	b.WriteString(handshakeCalls(hl))
 	b.WriteString("end Mobius.Generated\n")
 	writeIfChanged(filepath.Join(out, "Consts.lean"), b.String())
 
